@@ -151,23 +151,28 @@ impl Renumberer {
             Err(_) => return Err(Box::new(lang::Error::LineNumber))
         };
         let [mut l0,mut ln] = [0x10000,0];
+        let mut found = false;
         for (num,label) in &all_primaries {
             if label.len() != 1 {
                 log::error!("duplicated primary line number");
                 return Err(Box::new(crate::lang::Error::LineNumber));
             }
-            if *num >= beg && l0 > label[0].rng.start.line {
-                l0 = label[0].rng.start.line;
-            }
-            if *num < end && ln < label[0].rng.start.line {
-                ln = label[0].rng.start.line;
+            if *num >= beg && *num < end {
+                found = true;
+                if l0 > label[0].rng.start.line {
+                    l0 = label[0].rng.start.line;
+                }
+                if ln < label[0].rng.start.line {
+                    ln = label[0].rng.start.line;
+                }
             }
         }
         debug!("renumber rows {} to {}",l0,ln);
-        let ext_sel = match l0 <= ln {
-            true => Some(Range::new(Position::new(l0,0),Position::new(ln+1,0))),
-            false => None
-        };
+        if !found || l0 > ln {
+            log::error!("there are no lines to renumber in the given range");
+            return Err(Box::new(lang::Error::LineNumber));
+        }
+        let ext_sel = Some(Range::new(Position::new(l0,0),Position::new(ln+1,0)));
         match self.build_edits(source,ext_sel,
             &first.to_string(),
             &step.to_string(),
